@@ -11,6 +11,7 @@ use std::io::{BufRead, BufReader, BufWriter, Write};
 use std::panic::{catch_unwind, AssertUnwindSafe};
 
 mod codec;
+mod loadcfg;
 mod crypto;
 mod merkle;
 mod misc;
@@ -35,6 +36,7 @@ fn main() {
             let hi: u64 = args[3].parse().unwrap();
             tables::tagsweep(lo, hi);
         }
+        "loadcfg" => loadcfg::run(&args),
         "config" => {
             // make_config + is_valid_config + getters; a panic is an observable outcome (exit 101)
             std::panic::set_hook(Box::new(|_| {}));
